@@ -406,6 +406,8 @@ def run_case(spec):
                     label = "import-alias"
                 elif tok and old in facts["bare_genexp_targets"]:
                     label = "variable-of-a-generator-expression-that-is-the-sole-unparenthesised-argument-of-a-call"
+                elif tok and old in facts["fstring_names"]:
+                    label = "name-used-in-an-fstring-field"
                 elif tok and old in facts["class_nested_scope_loads"]:
                     label = "name-read-in-a-lambda-or-comprehension-directly-in-a-class-body"
                 elif tok and old in facts["global_and_class_attr"]:
